@@ -5,6 +5,7 @@ import (
 	"encoding/json"
 	"fmt"
 	"reflect"
+	"sort"
 	"strings"
 
 	"google.golang.org/protobuf/types/known/fieldmaskpb"
@@ -138,10 +139,20 @@ type pubStep struct {
 	Conc bool  `json:"conc"` // hold a at its clock read and run b in between
 	B    pubOp `json:"b"`
 }
+type pubCfgOpt struct {
+	Kind string    `json:"kind"` // pubs | clock
+	Pubs []pubInit `json:"pubs"`
+	Via  string    `json:"via"` // pubs: WithInitialPublication ("model") or WithPublicationOption(resource.WithInitialRecord) ("resource")
+}
+type pubObsOpt struct { // the same, with the records as the harness abstracts publications
+	Kind string   `json:"kind"`
+	Pubs []absPub `json:"pubs"`
+	Via  string   `json:"via"`
+}
 type pubWalk struct {
 	N   int `json:"n"`
 	Cfg struct {
-		Init []pubInit `json:"init"`
+		Opts []pubCfgOpt `json:"opts"`
 	} `json:"cfg"`
 	Ops []pubStep `json:"ops"`
 }
@@ -165,6 +176,8 @@ type pubObs struct {
 	AllowMissing bool     `json:"allowMissing"`
 	Pre          []absPub `json:"pre"`
 	Post         []absPub `json:"post"`
+	Opts         []pubObsOpt `json:"opts"` // New: the option sequence
+	Seed         []absPub `json:"seed"` // New: the publications of the PullPublications seed, in id order
 	Ret          optPub   `json:"ret"`
 	Err          string   `json:"err"`
 	Panic        string   `json:"panic"`
@@ -186,22 +199,47 @@ func runPublication(raw json.RawMessage, out *hx.Out) {
 	var m *publicationpb.Model
 	o := pubObs{Model: "publication", Walk: w.N, Op: "New", Now: 10, Mask: "none", Pre: []absPub{}, Post: []absPub{},
 		Ret: optPubOf(nil), Err: "OK"}
-	var initial []*traits.Publication
-	for _, ip := range w.Cfg.Init {
-		p := concPub(ip.ID, ip.Body, ip.MT, wAud{Has: ip.Aud.Has, Name: ip.Aud.Name})
-		p.Version = fmt.Sprintf("init-%d", ip.Ver.F)
-		p.PublishTime = concOptTime(ip.Pt)
-		if ip.Aud.Has {
-			p.Audience.Receipt = traits.Publication_Audience_Receipt(traits.Publication_Audience_Receipt_value[ip.Aud.Receipt])
-			p.Audience.ReceiptRejectedReason = ip.Aud.Reason
-			p.Audience.ReceiptTime = concOptTime(ip.Aud.RTime)
+	o.Opts, o.Seed = []pubObsOpt{}, []absPub{}
+	var opts []resource.Option
+	for _, co := range w.Cfg.Opts {
+		oo := pubObsOpt{Kind: co.Kind, Via: co.Via, Pubs: []absPub{}}
+		switch co.Kind {
+		case "pubs":
+			var ps []*traits.Publication
+			for _, ip := range co.Pubs {
+				p := concPub(ip.ID, ip.Body, ip.MT, wAud{Has: ip.Aud.Has, Name: ip.Aud.Name})
+				p.Version = fmt.Sprintf("init-%d", ip.Ver.F)
+				p.PublishTime = concOptTime(ip.Pt)
+				if ip.Aud.Has {
+					p.Audience.Receipt = traits.Publication_Audience_Receipt(traits.Publication_Audience_Receipt_value[ip.Aud.Receipt])
+					p.Audience.ReceiptRejectedReason = ip.Aud.Reason
+					p.Audience.ReceiptTime = concOptTime(ip.Aud.RTime)
+				}
+				ps = append(ps, p)
+				oo.Pubs = append(oo.Pubs, pubOf(p))
+			}
+			if co.Via == "resource" {
+				for _, p := range ps {
+					opts = append(opts, publicationpb.WithPublicationOption(resource.WithInitialRecord(p.Id, p)))
+				}
+			} else {
+				opts = append(opts, publicationpb.WithInitialPublication(ps...))
+			}
+		case "clock":
+			opts = append(opts, resource.WithClock(clk))
+		default:
+			hx.Fatal("publication: unknown option kind %q", co.Kind)
 		}
-		initial = append(initial, p)
-		o.Pre = append(o.Pre, pubOf(p))
+		o.Opts = append(o.Opts, oo)
 	}
 	o.Panic = hx.Catch(func() {
-		m = publicationpb.NewModel(resource.WithClock(clk), publicationpb.WithInitialPublication(initial...))
+		m = publicationpb.NewModel(opts...)
 		o.Post = pubState(m)
+		seed, _ := pullSeed(func(ctx context.Context) <-chan publicationpb.PublicationsChange { return m.PullPublications(ctx) }, len(o.Post))
+		for _, ch := range seed {
+			o.Seed = append(o.Seed, pubOf(ch.NewValue))
+		}
+		sort.Slice(o.Seed, func(i, j int) bool { return o.Seed[i].ID < o.Seed[j].ID })
 	})
 	out.Write(o)
 	if m == nil {
@@ -213,7 +251,7 @@ func runPublication(raw json.RawMessage, out *hx.Out) {
 	prepare := func(step int, op pubOp) (pubObs, string) {
 		o := pubObs{Model: "publication", Walk: w.N, Step: step, Op: op.Op, ID: op.ID, Body: op.Body, MT: op.MT, Aud: op.Aud,
 			Mask: op.Mask, Receipt: op.Receipt, Reason: op.Reason, Allow: op.Allow, AllowMissing: op.AllowMissing,
-			Ret: optPubOf(nil), Err: "OK"}
+			Ret: optPubOf(nil), Err: "OK", Opts: []pubObsOpt{}, Seed: []absPub{}}
 		o.Now = clk.advance(op.Dt)
 		o.Pre = pubState(m)
 		version := ""
